@@ -72,7 +72,7 @@ static void * lbody(void * a) {
     case L_SPAWN: {
       myth_thread_t t; void * rv = 0;
       __sync_lock_release(&me->active);
-      Z0(myth_create_ex(&t, 0, child, (void *)(intptr_t)o->a));
+      Z0(mt_create(&t, child, (void *)(intptr_t)o->a));
       myth_join(t, &rv);
       if (__sync_lock_test_and_set(&me->active, 1)) mt_fail("thread %d was resumed while it was already running", id);
       if (rv != (void *)(intptr_t)o->a) mt_fail("child value %p", rv);
